@@ -81,6 +81,13 @@ Fixpoint read_word (s : ustr) : ustr * ustr :=
   | [] => ([], [])
   | c :: r => if (c =? 32) || (c =? 9) then ([], s) else let '(w, rest) := read_word r in (c :: w, rest)
   end.
+(* a word directly followed by the final dot (the loaders join statements with a dot and a line feed): the dot is not part of it *)
+Definition read_word_dot (s : ustr) : ustr * ustr :=
+  let '(w, rest) := read_word s in
+  match rev w with
+  | 46 :: w' => (rev w', 46 :: rest)
+  | _ => (w, rest)
+  end.
 (* LANGTAG  [a-zA-Z]+ (- [a-zA-Z0-9]+)*  as an automaton: state 0 = start of first subtag, 1 = inside first subtag,
    2 = start of a later subtag, 3 = inside a later subtag *)
 Fixpoint langtag_ok (st : nat) (s : ustr) : bool :=
@@ -117,13 +124,13 @@ Definition read_term (s : ustr) : option (term * ustr) :=
                | Some (b, rest) => if absolute_iri b then Some (TmIri b, rest) else None
                | None => None
                end
-  | 95 :: 58 :: r => let '(l, rest) := read_word r in if bnode_label_ok l then Some (TmBnode l, rest) else None
+  | 95 :: 58 :: r => let '(l, rest) := read_word_dot r in if bnode_label_ok l then Some (TmBnode l, rest) else None
   | 34 :: r =>
       match read_string false r with
       | None => None
       | Some (v, rest) =>
           match rest with
-          | 64 :: r2 => let '(t, rest2) := read_word r2 in if langtag_ok 0 t then Some (TmLit v (ALang t), rest2) else None
+          | 64 :: r2 => let '(t, rest2) := read_word_dot r2 in if langtag_ok 0 t then Some (TmLit v (ALang t), rest2) else None
           | 94 :: 94 :: 60 :: r2 => match read_iri r2 with
                                     | Some (b, rest2) => if absolute_iri b then Some (TmLit v (ADt b), rest2) else None
                                     | None => None
@@ -163,9 +170,9 @@ Definition wf_iri (b : ustr) : bool := forallb iri_char_ok b && absolute_iri b.
 Definition wf_term (t : term) : bool :=
   match t with
   | TmIri b => wf_iri b
-  | TmBnode l => bnode_label_ok l && forallb not_blank l
+  | TmBnode l => bnode_label_ok l && forallb not_blank l && negb (match rev l with 46 :: _ => true | _ => false end)
   | TmLit _ ANone => true
-  | TmLit _ (ALang t) => langtag_ok 0 t && forallb not_blank t
+  | TmLit _ (ALang t) => langtag_ok 0 t && forallb not_blank t && negb (match rev t with 46 :: _ => true | _ => false end)
   | TmLit _ (ADt i) => wf_iri i
   end.
 Definition wf_stmt (q : stmt) : bool :=
